@@ -86,12 +86,12 @@ impl From<DynWeightedError> for SelErr {
     }
 }
 
-type Ind<R> = EcIndividual<u32, TestResults<R>>;
-type Pop<R> = Vec<Ind<R>>;
-type Sel<R> = Box<dyn DynSelector<Pop<R>, SelErr> + Send + Sync>;
+pub type Ind<R> = EcIndividual<u32, TestResults<R>>;
+pub type Pop<R> = Vec<Ind<R>>;
+pub type Sel<R> = Box<dyn DynSelector<Pop<R>, SelErr> + Send + Sync>;
 
 /// a weighted node with an erased inside: lets WeightedPair trees of any shape be built at run time
-struct DynW<R> {
+pub struct DynW<R> {
     inner: Sel<R>,
     weight: u32,
 }
@@ -111,7 +111,7 @@ pub trait Res: Ord + From<i64> + for<'a> Sum<&'a Self> + Send + Sync + 'static {
 impl Res for Score<i64> {}
 impl Res for Error<i64> {}
 
-enum Built<R> {
+pub enum Built<R> {
     Sel(Sel<R>),
     Overflow(u32, u32),
 }
@@ -147,7 +147,7 @@ fn build_w<R: Res>(t: &Tree) -> Option<Result<DynW<R>, WeightSumOverflow>> {
     })
 }
 
-fn build<R: Res>(t: &Tree) -> Option<Built<R>> {
+pub fn build<R: Res>(t: &Tree) -> Option<Built<R>> {
     let l = t.list()?;
     Some(Built::Sel(match l.first()?.int()? {
         0 => Box::new(Best),
@@ -188,14 +188,17 @@ fn build<R: Res>(t: &Tree) -> Option<Built<R>> {
     }))
 }
 
-fn run_pol<R: Res>(seed: u64, n: usize, pop: &Tree, spec: &Tree) -> Option<Tree> {
+fn run_pol<R: Res>(seed: u64, n: usize, pop: &Tree, spec: &Tree, shared_genomes: bool) -> Option<Tree> {
+    // with `shared_genomes` neighbouring individuals carry the SAME genome (re-evaluated copies with
+    // possibly different results): selection must look at the results only
     let population: Pop<R> = pop
         .list()?
         .iter()
         .enumerate()
         .map(|(i, r)| {
             let v: Vec<i64> = r.list()?.iter().map(Tree::i64).collect::<Option<_>>()?;
-            Some(EcIndividual::new(i as u32, TestResults::<R>::from(v)))
+            let genome = if shared_genomes { (i / 2) as u32 } else { i as u32 };
+            Some(EcIndividual::new(genome, TestResults::<R>::from(v)))
         })
         .collect::<Option<_>>()?;
     let sel = match build::<R>(spec)? {
@@ -229,8 +232,10 @@ fn run(input: &Tree) -> Option<Tree> {
         return None;
     }
     match p.first()?.int()? {
-        1 => run_pol::<Score<i64>>(seed, n, p.get(1)?, p.get(2)?),
-        0 => run_pol::<Error<i64>>(seed, n, p.get(1)?, p.get(2)?),
+        1 => run_pol::<Score<i64>>(seed, n, p.get(1)?, p.get(2)?, false),
+        0 => run_pol::<Error<i64>>(seed, n, p.get(1)?, p.get(2)?, false),
+        3 => run_pol::<Score<i64>>(seed, n, p.get(1)?, p.get(2)?, true),
+        2 => run_pol::<Error<i64>>(seed, n, p.get(1)?, p.get(2)?, true),
         _ => None,
     }
 }
@@ -286,10 +291,12 @@ fn gen_c06(tier: &str, rng: &mut Sm) -> Gen {
                 matrix(rng, n, 3, 3),
                 vec![vec![1, 1, 1]; n],                                      // all equal
                 (0..n).map(|i| vec![(i % 2) as i64, 2, 0]).collect(),        // duplicate-laden
-                (0..n).map(|i| vec![1; i % 4]).collect(),                    // ragged: missing cases
+                (0..n).map(|i| vec![1; i % 4]).collect(),                    // ragged: missing cases (first individual shortest)
+                (0..n).map(|i| vec![1; 4 - i % 4]).collect(),                // ragged: a LATER individual is the short one
+                (0..n).map(|_| vec![2; 1 + rng.below(4)]).collect(),         // ragged at random, all tied
             ];
             for pop in pops {
-                let pol = rng.range(0, 1);
+                let pol = rng.range(0, 3);
                 for spec in [
                     tl![A(0)],
                     tl![A(1)],
@@ -318,7 +325,7 @@ fn gen_c07(tier: &str, rng: &mut Sm) -> Gen {
     for n in 1..=7usize {
         for ties in [false, true] {
             let pop = pop_by_total(rng, n, ties);
-            let pol = rng.range(0, 1);
+            let pol = rng.range(0, 3);
             for k in 1..=n {
                 g.inputs.push(case(rng, draws, pol, pop.clone(), tl![A(3), au(k)]));
             }
@@ -341,7 +348,7 @@ fn gen_c08(tier: &str, rng: &mut Sm) -> Gen {
             if n >= 3 && rng.chance(1, 2) {
                 pop[n - 1] = pop[0].clone(); // duplicates
             }
-            for pol in [0, 1] {
+            for pol in [0, 1, 2, 3] {
                 // configured case count <= results available
                 let nc = if c == 0 { 0 } else { 1 + rng.below(c) };
                 g.inputs.push(case(rng, draws, pol, pop.clone(), tl![A(4), au(c)]));
